@@ -75,10 +75,21 @@ class _Event:
         return True
 
 
+class SleepyLoop(VLoop):
+    """A loop that has run out of ready handles sleeps in its selector: only a transport event, a timer or the self-pipe
+    write of call_soon_threadsafe wakes it.  A plain call_soon from another thread's loop appends the handle and wakes
+    nobody - the handle then sits in the queue of a sleeping loop (that is why call_soon is not thread-safe)."""
+
+    asleep = False
+
+    def _write_to_self(self):
+        self.asleep = False
+
+
 class Server:
     def __init__(self):
         self.blocked = False
-        self.io, self.kl = VLoop(), VLoop()
+        self.io, self.kl = SleepyLoop(), SleepyLoop()
         ipc.threading = Proxy(_REAL['threading'], Event=lambda: _Event(self))
         self.klong = KlongInterpreter()
         self.klong(PRELUDE)
@@ -95,21 +106,26 @@ class Server:
 
     def drive(self):
         n = 0
-        while self.io._ready or self.kl._ready:
+        while any(lp._ready and not lp.asleep for lp in (self.io, self.kl)):
             for lp in (self.io, self.kl):
-                if lp._ready:
+                if lp._ready and not lp.asleep:
                     lp.enter()
                     try:
                         lp.run_all_ready(limit=5000)
                     finally:
                         lp.leave()
+                    lp.asleep = True        # queue drained: back into the selector
             n += 1
             if n > 2000:
                 raise runner.HarnessError('C14 server part: the loops do not go quiescent')
 
     def feed(self, data):
+        self.io.asleep = False              # a transport event wakes the io loop
         self.reader.feed_data(data)
         self.drive()
+
+    def stuck_handles(self):
+        return [n for n, lp in (('io', self.io), ('klong', self.kl)) if lp._ready and lp.asleep]
 
     def close(self):
         try:
@@ -175,6 +191,7 @@ def run_case(seq, delivery):
         for mid, msg in frames(srv.writer.buf):
             answers.setdefault(mid, []).append(msg)
         ended = srv.writer.closing
+        srv_stuck = srv.stuck_handles()
         for i in fed:
             got = answers.get(ids[i].bytes, [])
             name = REQUESTS[seq[i]][0]
@@ -197,12 +214,15 @@ def run_case(seq, delivery):
             else:
                 obs.append((name, 'silence'))
                 why = ' (the server blocks in a wait that nothing can end)' if srv.blocked else ''
+                if srv_stuck:
+                    why += ' (a handle was queued on the sleeping %s loop without waking it: call_soon from another loop\'s thread)' % '/'.join(srv_stuck)
                 bad.append(('request-never-answered', 'request %d (%s): no response frame and the connection stays open%s'
                             % (i + 1, name, why), 'a response, or the connection ends so that the caller raises', i))
         if srv.blocked and not any(b[0] == 'request-never-answered' for b in bad):
             bad.append(('server-blocks-forever', 'the connection handler waits for an event that nothing sets', 'no such wait', len(fed)))
         # the client goes away: the handler must finish
         if not srv.task.done():
+            srv.io.asleep = False
             srv.reader.feed_eof()
             srv.drive()
             if not srv.task.done() and not srv.blocked:
